@@ -209,7 +209,7 @@ CLAIMED['C11'] = dict(
          'the holdings); a maintenance shutdown and the restore leave reservation and pools unchanged; finishing a part while '
          'holding queues a live RELEASE event for the current instant, which by C01 runs before the clock advances but after a '
          'same-instant PASS_PART (priority facts regenerated from the source), and releases iff the machine is idle or down; '
-         'pool usage = sum of the holdings of the processors holding reservations (+ reservations made by scripts), with the '
+         'pool usage = sum of the holdings of the processors holding reservations (class S + FreshR: no reservations made by scripts; those are covered by C09W), with the '
          'ownership invariant preserved by acquisition, release, failure, maintenance and hand-over. NOT proved: the global '
          'clause "whenever time advances no idle operational processor holds resources" as an invariant of the whole event loop '
          '(its local ingredients are proved) - checked by the monitor at every clock advance and by correspondence on the '
@@ -367,7 +367,7 @@ _cut('C11', 'NOT proved: the global', 'CLOSED WORLD (Props/C11W.lean): in every 
      'usage_sum_reachable, release_pending / release_paused, no_idle_holder_at_advance, holders_at_advance (when the clock '
      'advances every holder has a part in process or is shut down). Tie: monitor at every clock advance, correspondence.')
 _cut('C04', 'serial_timing (the executable', 'serial_timing is PROVED IN FULL (Props/C04W.lean): for every well-formed serial line of any length (handlers, processors, '
-     'buffers with capacities and delays, zero cycle times), every budget, seed, weight modulus, horizon and sufficient fuel, '
+     'buffers with capacities and delays, zero cycle times), every CONSTANT budget, seed, weight modulus, horizon and sufficient fuel, for runs that end without a model error (budget top-ups, family serialq, are NOT covered by the theorem: correspondence and the reference recurrence with permission times only), '
      'the logged entry times of every station equal the reference and the sink count equals the reference count; '
      'serial_line_completes (explicit fuel bound), weight_independence. On the real code the statement is evaluated exactly on '
      'every run by the reference monitor on 300+ random serial lines.')
@@ -407,9 +407,9 @@ CLAIMED['C03']['text'] = CLAIMED['C03']['text'].replace('Several groups are outs
      'no_lost_wakeup_rewire_all_reachable (class S4R; connection_added: a newly connected acceptor gets an attempt queued at that '
      'instant; connection_removed; four checked counterexamples for the excluded rewirings). Several groups and creation are outside S4R:')
 
-CLAIMED['C03']['text'] = CLAIMED['C03']['text'].replace('Several groups and creation are outside S4R:', 'SEVERAL GROUPS (chained, re-entrant, nested; batchers at nesting depth <= 1; all paths of one group in the same nesting context) are covered by '
+CLAIMED['C03']['text'] = CLAIMED['C03']['text'].replace('Several groups and creation are outside S4R:', 'SEVERAL GROUPS (chained, re-entrant, nested; batchers at nesting depth <= 1; a group shared between two nesting levels only if the usages are not connected by the wiring) are covered by '
      'no_lost_wakeup5_reachable (scope S5, typed group-path stacks) and, with rewiring issued from outside between events, no_lost_wakeup5_rewire_reachable; a batcher at depth 2 loses a wake-up in the model AND in the library '
-     '(nested_batcher_false, known finding F14, printed as KNOWN-FINDING). Scripted rewiring with several groups and creation are outside the scopes:')
+     '(nested_batcher_false, known finding F14, printed as KNOWN-FINDING). Creation (together with the C03 invariant) is outside the scopes:')
 CLAIMED['C03']['note'] = BASE_NOTE + ' Partial: closed-world theorem for scopes S4R (rewiring, one group) and S5 (several groups); scripted rewiring with several groups and creation by probe and correspondence. Known finding F14 (nested groups with batches crossing group boundaries). "run returns": per-scenario watchdog.'
 CLAIMED['C08']['note'] += ' Known finding F14 (nested groups with batches crossing group boundaries: a part leaves the inner group through the outer path) is reported as KNOWN-FINDING.'
 
@@ -432,7 +432,7 @@ _add('C09', 'CLOSED WORLD WITH OPERATIONS FROM OUTSIDE (Props/C09W.lean): rmInv_
      'issued from outside or from scripts and callbacks (register / reserve / release / merge / addres with zero, negative and unknown '
      'entries, rewiring, creation), also for operations issued BEFORE the first simulate (before_init, before_init_silent: finding F9); '
      'hypotheses: requests of reserve / partial release / declared requirements have distinct keys (ReqWF, opWF: necessary, nodup_needed '
-     'by three checked counterexamples) and the initial pools satisfy the invariant (fresh_not_enough). World-level corollaries: '
+     'by checked counterexamples: a reserve and a partial release with a duplicated key, a declared requirement with a duplicated key) and the initial pools satisfy the invariant (fresh_not_enough). World-level corollaries: '
      'usage_eq_sum, usage_nonneg, cap_nonneg, ext_error_changes_nothing (an operation answering with an error leaves the WHOLE world '
      'unchanged), ext_reserve_atomic, ext_reserve_iff, ext_release_exact, ext_release_unknown, ext_merge_usage_unchanged, '
      'ext_merge_holdings, ext_self_merge_noop, ext_add_spec. Every scenario of the correspondence family rm is inside this class.')
@@ -451,12 +451,12 @@ _add('C03', 'STAGE V (appended to Props/C03W.lean): several groups AND re-wiring
 CLAIMED['C03']['note'] = BASE_NOTE + ' Partial: closed-world theorem for scope S5R (several groups, rewiring in scripts and from outside, typed envelope); creation, batchers at nesting depth >= 2 and connected shared nesting levels by probe and correspondence. Known finding F14 (nested groups with batches crossing group boundaries). "run returns": per-scenario watchdog.'
 
 _add('C13', 'Props/C13Q.lean (class Static\' + Init + InitQ: no pass / release event of a device in the initial queue, no part budget on '
-     'processors -- both clauses shown necessary: initq_needed, budget_clause_needed): invariant QI in every reachable world (qi_run); '
+     'processors -- both clauses shown necessary: initq_needed, budget_clause_needed): invariant QI in every world of the run from simulateInit (qi_run: wAt w0.simulateInit k, every k); '
      'down_is_quiet (while a processor is down no live pass-part, release or finish event of it is pending; its paused finish events are '
      'exactly the timer of the part in process; while it is operational none of its events is paused), no_own_event_fires_while_down, '
      'reservation_kept_while_down / reservation_kept_run (across every step in which the machine is down before and after, its reservation '
      'changes only by its own live failure: the release-event exception of C13W.Inert is gone). Not proved: the exact list of events paused '
-     'by a maintenance shutdown; the positive restore_queues_pass without the C03W invariant.')
+     'by a maintenance shutdown (step-level equality); that the attempt re-queued by a restore (C13.finished_part_survives, one call) succeeds or is genuinely blocked is proved only under the C03W invariant GoodB (C13W.finished_part_leaves).')
 _add('C18', 'SCHEDULERS CREATED WHILE RUNNING (Props/C18D.lean; class SD = C18W.Static without its script clause + C20W.Reg + scripts and outside '
      'operations that may create schedulers (schedNew: no negative duration), maintainers and a cms; anchor map A: creation time per scheduler): '
      'wd_reachable, anchor_initial, anchor_created_step, anchor_created_outside (a scheduler created between two runs is anchored at the end of '
@@ -470,3 +470,20 @@ NOTES = NOTES + (' Known findings (known_findings.json): F1-F9, F11-F13, F15, F1
                  'their checks print one KNOWN-FINDING line each and exit 0. Trusted base, per-property status and the seeded-change experiments: DESIGN.md '
                  'sections 9, 11, 12. Evidence files carry coverage.proved_class_membership: how many compared scenarios start inside the class of each '
                  'closed-world theorem.')
+
+_add('C19', 'SENSORS CREATED WHILE RUNNING (Props/C19D.lean; class SDS = C18W.Static of the script-less twin + C18W.Fresh + C20W.Reg + scripts and '
+     'outside operations that may create PERIODIC sensors (sensNew: interval >= 0), maintainers and a cms; anchor map B: creation time per '
+     'sensor): ws_reachable, anchor_created_step, anchor_created_outside, periodic_sensor_dyn (k-th sample at B s + (k+1)*interval with the '
+     'values of that moment, one callback result per callback, exactly one pending event), sample_step_dyn, series_dyn, '
+     'late_sensor_equals_early_shifted; necessity: sensNew_interval_needed, idOK_needed; late_output_sensor_misses_parts shows that the '
+     'output-sensor statement fails for a late-created output sensor (kind clause).')
+for _p, _cls in (('C05', ' Class of the closed-world theorems: C05W.Init.'), ('C06', " Class: C06W.Static' + Init."),
+                 ('C11', ' Class: C11W.S + FreshR.'), ('C17', ' Class: C17W.Init = Fresh + Static + SizesPos; NoFailNonProc for the order theorem.'),
+                 ('C19', ' Class of C19W: C18W.Static + Fresh.'),
+                 ('C14', ' world_run_split needs Good, C01.Inv, UserState and the first run reaching its horizon (RunsTo).'),
+                 ('C08', ' stacks are exact brackets only in worlds without batchers (stacks_unpacked_false); idle_clock_iff speaks about initialised '
+                         'single-slot devices that are not shut down, idle_longest_first about devices whose direct downstream neighbours are all single-slot.'),
+                 ('C01', ' run_ends_world is stated for the relation ReachI.'),
+                 ('C15', ' The per-sink count equation needs NoBatch (counterexample with batches); C15D adds ScriptsNB.'),
+                 ('C03', ' connection_added / connection_removed are proved for the first rewiring stage S1R only.')):
+    CLAIMED[_p]['note'] += _cls
